@@ -10,7 +10,8 @@ LEVEL = "other"
 SELFTEST_PARTS = ("num",)
 WALL_BUDGET = {"quick": 900, "thorough": 5400}
 OPS = ["create_b", "write_a", "delete_a", "rename_a_b", "mkdir_d", "move_a_d", "rendir_d_e", "create_d_a"]
-MANGLE_ANY = ["dup-all", "dup-first", "dup-last", "single-batches", "walk-after", "walk-before", "idless-copy", "vanished-exists", "vanished-trashed"]
+MANGLE_ANY = ["dup-all", "dup-first", "dup-last", "single-batches", "walk-after", "walk-before", "idless-copy", "vanished-exists", "vanished-trashed",
+              "stale-exists", "replay-old"]
 MANGLE_IDSTABLE = ["reverse", "rotate", "delay-first", "delay-all-one-round", "drop-paths"]
 
 
@@ -21,6 +22,7 @@ class Mangler:
         self.lab, self.side, self.kind = lab, side, kind
         self.enabled = False
         self.held = []
+        self.seen = []
         self.out = []
         p = lab.p[side]
         orig = p.events
@@ -69,6 +71,22 @@ class Mangler:
                 batch = [copy.copy(e) for e in batch]
                 for e in batch:
                     e.path = None
+            elif k == "stale-exists":
+                # after an object was reported deleted, two out-of-date events still claim it exists (it has vanished since)
+                out2 = []
+                for ev0 in batch:
+                    out2.append(ev0)
+                    if ev0.exists is False:
+                        for _ in range(2):
+                            st = copy.copy(ev0)
+                            st.exists = True
+                            out2.append(st)
+                batch = out2
+            elif k == "replay-old":
+                # everything delivered so far is delivered once more, after the new batch
+                old = [copy.copy(x) for x in self.seen]
+                self.seen.extend(copy.copy(x) for x in batch)
+                batch = batch + old
             elif k == "idless-copy":
                 extra = copy.copy(batch[0])
                 extra.oid = None
